@@ -31,7 +31,7 @@ Definition set_eqb (a b : list item) : bool :=
 (* ---- the property, on the implementation's output only *)
 Definition p_head (c : ccase) : bool := implb (c_changed c) (future_head (c_out c)).
 Definition p_under_tc (c : ccase) : bool :=
-  forallb (fun it => memb it (tc_items (c_out c)) && negb (memb it (run_items (c_out c))))
+  forallb (fun it => memb it (tc_items (c_out c)) && negb (memb it (top_items (c_out c))))
           (moved_items (c_stub c) (c_src c)).
 Definition p_no_new_runtime (c : ccase) : bool :=
   forallb (allowed_runtime (c_src c)) (run_items (c_out c)).
@@ -49,11 +49,21 @@ Definition p_tc_name (c : ccase) : bool :=
   | _ => tc_before (c_out c)
   end.
 
+(* an import that a module-level `if TYPE_CHECKING:` block of the source already holds gets no further copy under
+   module-level blocks (re-application must not pile up blocks) *)
+Definition count_item (it : item) (l : list item) : nat := List.length (filter (item_eqb it) l).
+Definition tc_block_items (m : module) : list item := flat_map imp_items (tc_block_imps m).
+Definition p_no_second_copy (c : ccase) : bool :=
+  forallb (fun it => negb (memb it (already_confined (c_src c)))
+                     || Nat.leb (count_item it (tc_block_items (c_out c))) (count_item it (tc_block_items (c_src c))))
+          (moved_items (c_stub c) (c_src c)).
+
 (* ---- modelled-libcst assumptions of the theorems, checked on every case *)
 Definition libcst_ok (c : ccase) : bool :=
   embedsb (c_src c) (c_applied c)
   && implb (c_changed c) (future_head (c_applied c))
-  && needed_okb (c_src c) (c_applied c).
+  && needed_okb (c_src c) (c_applied c)
+  && nested_ok (c_src c) (c_applied c).
 
 Definition model_ok (c : ccase) : bool :=
   set_eqb (newly (c_stub c) (c_src c)) (c_newly c)
@@ -73,7 +83,7 @@ Definition verdict (c : ccase) : nat :=
   if negb (wf_case c) then 3 else
   let sh := kf_shadow (c_stub c) (c_src c) in
   let ex := kf_apply_extra (c_stub c) (c_src c) (c_applied c) in
-  let hard := p_head c && p_under_tc c && p_needed c && p_tc_name c in
+  let hard := p_head c && p_under_tc c && p_needed c && p_tc_name c && p_no_second_copy c in
   let place := p_in_place c && p_bound c in
   let nonew := p_no_new_runtime c in
   if hard && place && nonew then (if model_ok c && libcst_ok c then 0 else 1)
@@ -85,7 +95,7 @@ Definition verdict (c : ccase) : nat :=
 Definition clauses (c : ccase) : list bool :=
   [p_head c; p_under_tc c; p_no_new_runtime c; p_in_place c; p_bound c; p_needed c;
    model_ok c; libcst_ok c; kf_shadow (c_stub c) (c_src c); kf_apply_extra (c_stub c) (c_src c) (c_applied c);
-   p_tc_name c].
+   p_tc_name c; p_no_second_copy c].
 
 (* the clause vector as one number (leading 1, then one bit per clause, first clause = most significant) *)
 Definition clause_code (c : ccase) : nat :=
